@@ -42,6 +42,8 @@ func checkC06(c *Ctx) Meta {
 	c.Rule("C06-ORDINAL", "the ordinal returned with a new plot key is the persisted index of that same key; a later ordinal lookup returns the index of the entry found under the address derived from the argument", 2)
 	c.Rule("C06-LOCK", "issuance and lookup run under the manager lock and inside one db.Update", 3)
 	c.Rule("C06-KEEPER", "the keeper names a new plot from both results of one GenerateNewPublicKey call", 1)
+	c.Rule("C06-BRANCH", "the external (plot-key) counter and the internal counter never cross: every consumer of a counter (struct field, putLastIndex/updateChildNum argument, exported hdPath) receives only values produced for the same branch (fetchChildNum result, getChildNum flag, field), producers and consumers being labelled from the DB key they read or write", 10)
+	checkBranchPolarity(c, "C06-BRANCH")
 
 	li := keystoreLocksets(c)
 	if f := c.MustFn("C06-RMW", "poc/wallet/keystore", "(*AddrManager).nextAddresses"); f != nil {
